@@ -85,3 +85,21 @@ Theorem C12_unawaited_interceptor_blocks : exists c r,
   req_decodable (ps (cx_mach c)) r /\ r_dec (handle_update_req repaired c r) = Block.
 Proof. exact C12_unawaited_interceptor_blocks. Qed.
 Print Assumptions C12_unawaited_interceptor_blocks.
+
+(* the parent lock of the proposal handlers (client/proposal.go prepareChannelOpening /
+   cleanupChannelOpening): for every set of channels and every interleaving of proposal arrivals and
+   handler returns - any proposal ids (the remote proposer chooses them: equal ids on different
+   parents, replays), any parents - no Unlock hits an unlocked mutex, and when every handler has
+   returned no channel is locked *)
+Theorem C12_proposal_locks_released : forall known evs,
+  in_flight [] evs = Some [] ->
+  prun known [] evs <> PPanic /\ forall l, prun known [] evs = PLocks l -> l = [].
+Proof. exact proposal_locks_released. Qed.
+Print Assumptions C12_proposal_locks_released.
+Example C12_proposal_locks_nonvacuous :
+  let a := repeat Byte.x01 32 in let b := repeat Byte.x02 32 in let x := repeat Byte.x09 32 in
+  let p1 := mkPM x (Some a) in let p2 := mkPM x (Some b) in
+  in_flight [] [PArrive p1; PArrive p2; PReturn p1; PReturn p2] = Some []
+  /\ prun [a; b] [] [PArrive p1; PArrive p2] = PLocks [b; a]
+  /\ prun [a; b] [] [PArrive p1; PArrive p2; PReturn p1; PReturn p2] = PLocks [].
+Proof. vm_compute. auto. Qed.
